@@ -47,7 +47,11 @@
 //	                  beyond the pre-existing ones remain (recentlyConnectedPeerMaxAddrs: "number of addresses to keep
 //	                  for peers we have disconnected from"). Not asserted when the last close raced with activity: a
 //	                  message consumed after the disconnect may legally add more.
-//	addr-lost-while-connected   if the FIRST connection was never closed (so the peer was connected without a gap),
+//	addr-lost-while-connected   if the OBSERVER provably held the first connection without a gap (never closed, and
+//	                  its Connected notification on the observer precedes the start of every close of, and of every
+//	                  send on, another connection: see connectedWithoutGap. That byz's dial of it returned first is NOT
+//	                  enough: the observer may register a later connection first and then rightly treats the close of
+//	                  that one as a last disconnect — an earlier version of this harness raised a false alarm there),
 //	                  every address present at quiescence (minus harness-inserted short-TTL ones) is still returned by
 //	                  Addrs after RecentlyConnectedAddrTTL + 2 min (enough to tell any finite, downgraded lifetime from
 //	                  the connected one) or, in 1/8 of the runs, 2 h. In half of the runs all other connections are
@@ -76,7 +80,7 @@
 //	consumeMessage: p taken from the message's public key .................. 6/6 C13/cross-talk/{H1,H2,H3,U,peer-set,self-addr}
 //	record addresses stored under rec.PeerID ............................... 6/6 C13/cross-talk/{...}
 //	Disconnected: no downgrade on the last disconnect ...................... 6/6 C13/addr-kept-after-disconnect (+ address-cap-after-disconnect)
-//	Disconnected: downgrade also on a non-last disconnect .................. 6/6 C13/addr-lost-while-connected
+//	Disconnected: downgrade also on a non-last disconnect .................. 6/6 C13/addr-lost-while-connected (4/4 again after the eligibility rule was tightened)
 //	maxPeerProtocols truncation removed .................................... 6/6 C13/protocol-cap
 //	connectedPeerMaxAddrs truncation removed ............................... 6/6 C13/address-cap
 //	recentlyConnectedPeerMaxAddrs truncation removed ....................... 6/6 C13/address-cap-after-disconnect
@@ -361,15 +365,16 @@ type bstream interface {
 
 // bconn is the byzantine side of one connection.
 type bconn struct {
-	idx    int
-	raw    transport.CapableConn // dialled through the transport
-	sw     network.Conn          // accepted by byz's swarm (observer dialled)
-	ready  chan struct{}
-	failed bool
-	closed bool // a close by either side was started
-	resp   sendPlan
-	local  ma.Multiaddr
-	remote ma.Multiaddr
+	idx        int
+	raw        transport.CapableConn // dialled through the transport
+	sw         network.Conn          // accepted by byz's swarm (observer dialled)
+	ready      chan struct{}
+	failed     bool
+	closed     bool   // a close by either side was started
+	closeStamp uint64 // taken BEFORE the close call
+	resp       sendPlan
+	local      ma.Multiaddr
+	remote     ma.Multiaddr
 }
 
 func (c *bconn) openStream(ctx context.Context) (bstream, error) {
@@ -684,6 +689,9 @@ func (x *exec) findObsConn(c *bconn) network.Conn {
 
 func (x *exec) closeConn(c *bconn, byObs bool, why string) {
 	c.closed = true
+	if c.closeStamp == 0 {
+		c.closeStamp = simrt.Stamp()
+	}
 	if !x.quiet {
 		x.o.Fault("close-during-activity")
 	}
@@ -722,6 +730,9 @@ func (x *exec) doAction(k int, a actPlan) {
 		if a.byObs {
 			for _, c := range x.conns {
 				c.closed = true
+				if c.closeStamp == 0 {
+					c.closeStamp = simrt.Stamp()
+				}
 			}
 			x.o.Fault("close-during-activity")
 			x.logf("  [%d] observer closes all connections to byz (action %d)", simrt.Stamp(), k)
@@ -1229,7 +1240,7 @@ func (x *exec) main(tape *simrt.Tape) {
 			open++
 		}
 	}
-	firstKept := !x.conns[0].failed && !x.conns[0].closed
+	firstKept := x.connectedWithoutGap()
 	// Everything that was downgraded to a finite lifetime (TempAddrTTL, RecentlyConnectedAddrTTL) is gone after this:
 	adv := peerstore.RecentlyConnectedAddrTTL + 2*time.Minute
 	if pl.longAdv {
@@ -1296,6 +1307,57 @@ func (x *exec) main(tape *simrt.Tape) {
 		}
 	}
 	x.summarise()
+}
+
+// connectedWithoutGap reports whether the OBSERVER provably held the first connection, open, at every instant at
+// which identify decided about byz's address lifetimes. That byz's dial of connection 0 returned first does not mean
+// the observer registered it first: its accept/upgrade side may finish after a later connection has been
+// established, identified and closed again; from the observer's point of view that close was a LAST disconnect
+// (legal downgrade), and a failed identify on the connections registered afterwards need not restore anything.
+// Sound rule over stamps taken by the harness: the observer's Connected notification of connection 0 (issued after
+// the swarm lists the connection) precedes (a) the START of every close of another connection (stamp taken before
+// the call) and (b) the START of every send on another connection; no dial failed (a half-established connection
+// would be a disconnect the harness has no stamp for); connection 0 was never closed.
+func (x *exec) connectedWithoutGap() bool {
+	c0 := x.conns[0]
+	if c0.failed || c0.closed || c0.local == nil {
+		return false
+	}
+	var t0 uint64
+	for _, oc := range x.obsConns {
+		if oc.c.RemotePeer() == x.w.byz.id && oc.disconnected == 0 && oc.c.RemoteMultiaddr().Equal(c0.local) && oc.c.LocalMultiaddr().Equal(c0.remote) {
+			t0 = oc.connected
+		}
+	}
+	if t0 == 0 {
+		return false
+	}
+	for _, c := range x.conns[1:] {
+		if c.failed || (c.closeStamp != 0 && c.closeStamp < t0) {
+			return false
+		}
+	}
+	for _, s := range x.sends {
+		if s.conn != 0 && s.start < t0 {
+			return false
+		}
+	}
+	// every observer-side connection to byz must be one the harness knows (otherwise its disconnect is unstamped)
+	for _, oc := range x.obsConns {
+		if oc.c.RemotePeer() != x.w.byz.id {
+			continue
+		}
+		known := false
+		for _, c := range x.conns {
+			if c.local != nil && oc.c.RemoteMultiaddr().Equal(c.local) && oc.c.LocalMultiaddr().Equal(c.remote) {
+				known = true
+			}
+		}
+		if !known {
+			return false
+		}
+	}
+	return true
 }
 
 func contains(l []string, s string) bool {
